@@ -316,10 +316,41 @@ emit(const std::string& e)
     total_events++;
 }
 
+// C03 "readers that keep reading reach the drained state in a bounded number of calls": from this state, with the
+// writer idle, reader r maps and fully consumes until a read comes back empty; the calls are ordinary events (judged
+// like any other), followed by a DrainProbe event carrying the number of non-empty reads it took.
+static void
+drain_probe(int id)
+{
+    restore(nodes[id].s);
+    if (g.poff >= 0)
+        return;
+    for (int r = 0; r < NR; r++) {
+        restore(nodes[id].s);
+        if (g.next[r] < 0 || g.hoff[r] >= 0)
+            continue;
+        emit("{\"e\":\"Push\"}");
+        int nonempty = 0, drained = 0;
+        for (int k = 0; k < 8 && !drained; k++) {
+            emit(exec_op({ 'r', 0, r }));
+            if (g.hoff[r] >= 0) {
+                nonempty++;
+                emit(exec_op({ 'u', g.hlen[r], r }));
+            } else
+                drained = 1;
+        }
+        char b[128];
+        snprintf(b, sizeof b, "{\"e\":\"DrainProbe\",\"r\":%d,\"calls\":%d,\"drained\":%s}", r + 1, nonempty, drained ? "true" : "false");
+        emit(b);
+        emit("{\"e\":\"Pop\"}");
+    }
+}
+
 static void
 dfs(int id)
 {
     std::vector<Op> ops;
+    drain_probe(id);
     restore(nodes[id].s);
     alphabet(ops);
     for (size_t i = 0; i < ops.size(); i++) {
